@@ -3,6 +3,11 @@
 package state
 
 import (
+	"crypto/ed25519"
+	"net/netip"
+
+	"github.com/mycoria/mycoria/config"
+	"github.com/mycoria/mycoria/m"
 	vf "github.com/mycoria/mycoria/zzvf"
 )
 
@@ -124,4 +129,111 @@ func VfC03Time() {
 		vf.Assert(sh.latest == latest, "reject-leaves-state")
 		vf.Reach("reject")
 	}
+}
+
+func vfAddr03() netip.Addr {
+	var a [16]byte
+	copy(a[:], vf.Bytes(16))
+	a[0] = 0xfd
+	return netip.AddrFrom16(a)
+}
+
+// VfC03Persist: the replay state of a session is forgotten only together with
+// the key it protects. A session whose signed-frame filter has accepted
+// timestamp T (and whose encryption windows are in an arbitrary state) goes
+// through one session-level operation that is not a replacement of the peer's
+// signing key - installing or clearing an encryption session (as the hello
+// handler and the 'no encryption keys' error handler do), lazily creating one,
+// re-keying in place as client or server, setting the MTU, being looked up
+// again. Afterwards the State still hands out the same session, a signed
+// frame stamped <= T is still refused, and - where the encryption session
+// object and its keys were kept - the receive windows are what they were.
+func VfC03Persist() {
+	ip := vfAddr03()
+	own := &m.Address{PublicAddress: m.PublicAddress{IP: vfAddr03(), PublicKey: ed25519.PublicKey(make([]byte, 32))}, PrivateKey: ed25519.PrivateKey(make([]byte, 64))}
+	st := VfNewState(&VfInstance{Id: own, Cfg: &config.Config{}}, &m.PublicAddress{IP: ip, PublicKey: ed25519.PublicKey(make([]byte, 32))})
+	s := st.GetSession(ip)
+	vf.Assert(s != nil, "no-session")
+	T := vf.TimeSec()
+	vf.Assert(s.Signing().Seq().Check(T) == nil, "first-signed-frame-refused")
+	sig0, seq0 := s.Signing(), s.Signing().Seq()
+	hadEnc := vf.Bool()
+	var enc0 *EncryptionSession
+	var w0 [4]uint64
+	if hadEnc {
+		enc0 = VfEncSession(vf.NewAEAD(1), vf.NewAEAD(2))
+		enc0.VfSeqStateEnc()
+		s.SetEncryptionSession(enc0)
+		w0 = enc0.VfSeqSnap()
+	}
+	keysKept := true
+	switch vf.Choose(9) {
+	case 0:
+		s.SetEncryptionSession(NewEncryptionSession())
+		keysKept = false
+	case 1:
+		s.SetEncryptionSession(nil)
+		keysKept = false
+	case 2:
+		_ = st.SetEncryptionSession(ip, NewEncryptionSession())
+		keysKept = false
+	case 3:
+		_ = st.SetEncryptionSession(ip, nil)
+		keysKept = false
+	case 4:
+		_ = s.Encryption()
+	case 5:
+		s.SetTunMTU(vf.Int())
+	case 6:
+		_ = st.GetSession(ip)
+	case 7:
+		_, _, _ = s.Encryption().InitKeyClientStart()
+	default:
+		_, _, err := s.Encryption().InitKeyServer(vf.Bytes(32), "ECDH-X25519/BLAKE3")
+		keysKept = err != nil
+		if err == nil {
+			vf.Reach("re-keyed-in-place")
+		}
+	}
+	s2 := st.GetSession(ip)
+	vf.Assert(s2 == s, "session-object-replaced")
+	vf.Assert(s2.Signing() == sig0 && s2.Signing().Seq() == seq0, "signed-frame-replay-state-replaced")
+	t := vf.TimeSec()
+	if !t.After(T) {
+		vf.Assert(s2.Signing().Seq().Check(t) != nil, "signed-frame-not-newer-than-an-accepted-one-accepted-after-session-operation")
+		vf.Reach("old-signed-frame-refused")
+	} else {
+		vf.Assert(s2.Signing().Seq().Check(t) == nil, "newer-signed-frame-refused-after-session-operation")
+	}
+	if hadEnc && keysKept {
+		vf.Assert(s2.VfEnc() == enc0, "encryption-session-replaced-without-new-keys")
+		vf.Assert(enc0.VfSeqSnap() == w0, "receive-window-changed-without-new-keys")
+		vf.Reach("windows-kept")
+	}
+}
+
+// VfC03Expiry: the session cleaner. After any idle time the cleaner may drop
+// a session; a session created afresh for the same router must not accept a
+// signed frame that the dropped one had already accepted.
+func VfC03Expiry() {
+	ip := vfAddr03()
+	own := &m.Address{PublicAddress: m.PublicAddress{IP: vfAddr03(), PublicKey: ed25519.PublicKey(make([]byte, 32))}, PrivateKey: ed25519.PrivateKey(make([]byte, 64))}
+	st := VfNewState(&VfInstance{Id: own, Cfg: &config.Config{}})
+	vf.Assert(st.AddRouter(&m.PublicAddress{IP: ip, PublicKey: ed25519.PublicKey(make([]byte, 32))}) == nil, "add-router")
+	s := st.GetSession(ip)
+	vf.Assert(s != nil, "no-session")
+	T := vf.TimeSec()
+	vf.Assert(s.Signing().Seq().Check(T) == nil, "first-signed-frame-refused")
+	if vf.Bool() {
+		s.SetEncryptionSession(VfEncSession(vf.NewAEAD(1), vf.NewAEAD(2)))
+	}
+	st.cleanSessions() // the clock has moved on by an arbitrary amount since the session was used
+	s2 := st.GetSession(ip)
+	vf.Assert(s2 != nil, "no-session-after-cleaning")
+	if s2 != s {
+		vf.Reach("session-expired")
+	} else {
+		vf.Reach("session-kept")
+	}
+	vf.Assert(s2.Signing().Seq().Check(T) != nil, "signed-frame-accepted-again-after-the-session-expired")
 }
